@@ -105,7 +105,7 @@ variable {K : Consts} {cass cass' : List Cas} {hp hp' : Heap} {indexed indexed' 
 
 theorem Iso.intOf (h : Iso K cass cass' hp hp' indexed indexed' addrs addrs' φ) {a : Nat} (ha : a ∈ addrs) {n : String}
     (hn : n ≠ "sofa") : intOf (slot hp' (φ a) n) = Comparable.intOf (slot hp a n) := by
-  have hr := h.slots a ha n hn
+  obtain ⟨d, hr⟩ := h.slots a ha n hn
   apply Option.ext
   intro i
   rw [intOf_eq_some, intOf_eq_some]
